@@ -483,7 +483,7 @@ fn helper_case(ctx: &mut Ctx, idx: u64) {
 /// exactly. This is the only family that goes through the real `announce()`, the real receive loops and `get_known_services()`.
 /// A passive listener on the mDNS group, used only as a witness: which response datagrams carrying records of a given
 /// instance were on the wire during a live round.
-fn open_tap() -> Option<std::net::UdpSocket> {
+pub fn open_tap() -> Option<std::net::UdpSocket> {
     use std::os::fd::FromRawFd;
     unsafe {
         let fd = libc::socket(libc::AF_INET, libc::SOCK_DGRAM | libc::SOCK_CLOEXEC, 0);
